@@ -14,21 +14,21 @@ import (
 
 // FuncInfo ties a contract to the typed function it talks about.
 type FuncInfo struct {
-	C        *FuncContract
-	Obj      *types.Func
-	Decl     *ast.FuncDecl // enclosing declaration
-	Lit      *ast.FuncLit  // for anonymous functions (Name contains $)
-	Pkg      *packages.Package
-	TParams  string   // "[V any]" or ""
-	TArgs    string   // "[V]" or ""
-	ParamDecl string  // "r cmRow, n uint64"
-	ParamNames []string
-	ResultDecl string // "result byte" ...
+	C           *FuncContract
+	Obj         *types.Func
+	Decl        *ast.FuncDecl // enclosing declaration
+	Lit         *ast.FuncLit  // for anonymous functions (Name contains $)
+	Pkg         *packages.Package
+	TParams     string // "[V any]" or ""
+	TArgs       string // "[V]" or ""
+	ParamDecl   string // "r cmRow, n uint64"
+	ParamNames  []string
+	ResultDecl  string // "result byte" ...
 	ResultNames []string
-	FreeDecl string // for func literals: captured variables "shard *lockedMap[V], cb func(V) bool"
-	FreeNames []string
-	Loops    []ast.Node // loop statements in source order (not inside nested literals)
-	Reassigned map[string]bool
+	FreeDecl    string // for func literals: captured variables "shard *lockedMap[V], cb func(V) bool"
+	FreeNames   []string
+	Loops       []ast.Node // loop statements in source order (not inside nested literals)
+	Reassigned  map[string]bool
 }
 
 type genPkg struct {
